@@ -5,25 +5,31 @@ package mqttproxy
 
 // C14 — MQTT topic routing equals MQTT 3.1.1 filter matching over any history.
 //
-// System under test (all real): one TopicManager (its RWMutex replaced by the
-// gated simsync.RWMutex, topic.go is the only instrumented file), driven the
-// way the broker drives it: every client task owns a real *Client + *Session
-// and calls processSubscribe / processUnsubscribe / Client.closeAndDelSession
-// (client.go, session.go); routing is observed with
+// System under test (all real, nothing instrumented): one TopicManager inside
+// a minimal Broker, driven the way the broker drives it: every client task owns
+// a real *Client + *Session and calls processSubscribe / processUnsubscribe /
+// Client.closeAndDelSession (client.go, session.go); routing is observed with
 // TopicManager.findSubscribers, the call Broker.sendMsgToClient makes.
 //
-// Why lock-step is sound: the only gate inside an operation is the
-// acquisition of the topic manager's lock; from there to the return of the
-// operation nothing can be scheduled in between (client.go / session.go keep
-// their real, uncontended mutexes; Session.store only spawns a goroutine that
-// sends to a buffered channel). The harness updates its reference model in the
-// same atomic stretch in which the operation returns, so the order of the
-// harness's records IS the linearisation order. Every record also carries
-// invoke/return stamps (r.Seq()) so that a porcupine check over the same
-// history can be added once it is wired into the build. A change that drops
-// Lock/Unlock from subscribe/unsubscribe leaves the operations atomic in this
-// cooperative simulation (no gate remains inside them): such a mutant is
-// behaviourally equal here and is (correctly) not accused.
+// Why lock-step is sound: no production file has gates. Since the fix
+// "teardown of a superseded MQTT connection ..." closeAndDelSession (and
+// handleConn's setSession) touch the topic tree while holding the broker lock,
+// and the sessions' resend tickers take that lock too: a task parked at a
+// simulated topic-manager lock would hold the real broker lock (bubble freeze),
+// and with the broker lock simulated as well the ticker goroutines become
+// scheduled parties and gates appear between an operation's effect and its
+// return. For a structure whose every operation is one critical section a gate
+// at the lock acquisition adds no interleaving that the task-level gate in
+// front of every operation (r.Sleep) does not already give, so the operations
+// simply run atomically between task gates; map iteration in topic.go and
+// session.go is determinised (map_ranges). The harness updates its reference
+// model in the same atomic stretch, so the order of its records IS the
+// linearisation order. Every record also carries invoke/return stamps
+// (r.Seq()) so that a porcupine check over the same history can be added once
+// it is wired in (then with topic.go/broker.go/session.go instrumented and
+// stmt_gates). A change that drops Lock/Unlock from subscribe/unsubscribe
+// leaves the operations atomic in this cooperative simulation: such a mutant
+// is behaviourally equal here and is (correctly) not accused.
 //
 // Reference model (written from the property statement and MQTT 3.1.1 §4.7,
 // not from topic.go): live subscriptions = map client -> filter -> QoS; a
@@ -43,8 +49,9 @@ package mqttproxy
 // holds that session's subscriptions again, each with the QoS of its last
 // subscribe; every other connection starts empty and discards what was stored.
 // Not generated: a second connection for an id that is still connected
-// (take-over interleavings are C16's), and two session snapshots without the
-// task parking in between (their asynchronous persistence order is C16's).
+// (take-over interleavings are C16's). A connect and the SUBSCRIBE/UNSUBSCRIBE
+// right behind it do take two session snapshots without a scheduling point in
+// between (their persistence order is covered by doStore's sequence numbers).
 //
 // Oracle decisions (statement silent / two readings):
 //   * while a client with a cleanSession=false session is away it is NOT in
@@ -254,7 +261,7 @@ func (g *c14GenCtx) badFilter() string {
 
 func c14Gen(rng *sim.Rand, tier string) interface{} {
 	sc := &c14Scenario{Cache: rng.Pick(1, 2, 4, 64)}
-	sc.Mixed = c14MixedLists && rng.Bool(0.15)
+	sc.Mixed = c14MixedLists && rng.Bool(0.2)
 	g := &c14GenCtx{rng: rng, lits: []string{"a", "b"}}
 	if rng.Bool(0.7) {
 		g.lits = append(g.lits, "")
@@ -1428,14 +1435,14 @@ func TestVerifC14(t *testing.T) {
 			"pkg/object/mqttproxy/client.go (processSubscribe, processUnsubscribe, Client.closeAndDelSession, close)",
 			"pkg/object/mqttproxy/session.go + session_manager.go (Session.subscribe/unsubscribe/allSubscribes/updateEGName/store, SessionManager.newSessionFromConn/newSessionFromYaml/get/doStore/delLocal/delDB), Broker.setSession/removeClient, storage.go mockStorage"},
 		Stub: []string{"no sockets: the harness performs handleConn's connection steps and readLoop's teardown steps with the real functions and calls the packet handlers directly (no readLoop/writeLoop, no pipelines)",
-			"TopicManager's sync.RWMutex -> simsync.RWMutex (same semantics + gate at acquisition)",
+			"no sync primitive is replaced: operations are atomic between the task-level gates in front of them (see header); map ranges of topic.go/session.go iterate in a tape-determined order",
 			"storage = the repo's mockStorage"},
 		Assumptions: []string{
-			"each operation is atomic between the acquisition of the topic manager's lock and its return (no other gate inside), so the order of the harness's records is the linearisation order; invoke/return stamps are recorded for a later porcupine check",
+			"each operation runs atomically between two task-level gates (no gate inside production code), so the order of the harness's records is the linearisation order; invoke/return stamps are recorded for a later porcupine check; data races / missing locks are out of reach of this check",
 			"not generated: empty filter, empty topic name, '$' topics, topic names containing '+' or '#'",
 			"when several subscriptions of a client match, the QoS of any of them is accepted",
 			"a client with a cleanSession=false session is not in the routing set while it is away; after its cleanSession=false reconnect it holds the stored subscriptions with the QoS of the last subscribe of each filter",
-			"not generated: take-over of a still connected id, and two session snapshots without a scheduling point in between (asynchronous persistence order; both belong to C16)",
+			"not generated: take-over of a still connected id (C16)",
 			"a refused SUBSCRIBE list mixing valid and malformed filters may or may not install its valid filters while the client is connected; after disconnect nothing may remain (C14.partial-subscribe-residue otherwise)",
 			"an acknowledged UNSUBSCRIBE list mixing valid and malformed filters must have removed its valid filters (C14.partial-unsubscribe-residue otherwise); unacknowledged: both outcomes accepted",
 			"SUBACK return code values are not compared",
